@@ -245,7 +245,7 @@ macro_rules! array_contract_checks {
                 let huge = ctx.thorough && r.chance(1, 50);
                 let big = huge || r.chance(1, 8);
                 // and one case in 300 uses arrays of several hundred elements (block-wise implementations)
-                let large = r.chance(1, 300);
+                let large = r.chance(1, 300) && !cfg!(miri);
                 let maxlen = if large { 700 } else if huge { 200 } else if big { 40 } else { 6 };
                 if large {
                     ctx.class("arrays_of_several_hundred_elements");
